@@ -1,7 +1,7 @@
 #include "queues_common.hpp"
 #include <xenium/michael_scott_queue.hpp>
 using namespace qh;
-namespace {
+namespace hx_queues_ms {
 template <class R>
 using MS = xenium::michael_scott_queue<int, xenium::policy::reclaimer<R>>;
 const Config cfgs[] = {
